@@ -12,6 +12,7 @@ mkdir -p $OUT
 cp $S/patch.diff $OUT/patch.diff
 cp $S/demo.rs $OUT/demo.rs 2>/dev/null
 cp $S/notes.md $OUT/notes_from_author.md 2>/dev/null
+if [ "${CHECK_ONLY:-}" != "1" ]; then
 git -C /repo worktree remove --force $WT 2>/dev/null
 git -C /repo worktree add -q $WT HEAD || exit 2
 cd $WT
@@ -41,6 +42,12 @@ echo "== existing suite with patch"; git apply $S/patch.diff || { echo "PATCH DO
 R2=$(cargo test --offline 2>&1 | grep -E "^test result|FAILED|^error" | head -8); echo "$R2"
 echo "== demo with patch"; install_demo; R3=$(run_demo); echo "$R3"
 cd /verif; git -C /repo worktree remove --force $WT
+printf '%s\n---\n%s\n---\n%s\n' "$R1" "$R2" "$R3" > $OUT/confirm.txt
+if [ "${CONFIRM_ONLY:-}" = "1" ]; then exit 0; fi
+else
+  R1=$(awk 'BEGIN{RS="\n---\n"} NR==1' $OUT/confirm.txt); R2=$(awk 'BEGIN{RS="\n---\n"} NR==2' $OUT/confirm.txt); R3=$(awk 'BEGIN{RS="\n---\n"} NR==3' $OUT/confirm.txt)
+fi
+cd /verif
 echo "== check on /repo with patch applied"
 git -C /repo apply $S/patch.diff || { echo "PATCH DOES NOT APPLY TO /repo"; exit 3; }
 # the evidence file of the property is rewritten by the run on the patched tree: keep the one of the unchanged tree
